@@ -187,6 +187,26 @@ CLAIMS["C05"] = {
     "design_ref": "DESIGN.md section 8.5",
 }
 
+CLAIMS["C20"] = {
+    "technique": "contract-based deductive verification (Verus) of the extracted real functions (four mechanical rewrites: I3, I4, I5, K2)",
+    "text": "Partial, unbounded proof of the walk only: find_used_datakey adds to the option set exactly the options used by "
+            "some key of the tree it is given -- Plurals iff some variable at any subkey depth is the count of a plural, each "
+            "formatter family iff some variable carries a formatter of that family (number -> FormatNums, date / time / "
+            "datetime -> FormatDateTime, list -> FormatList, currency -> FormatCurrency, the plain formatter -> nothing) -- "
+            "nothing missing and nothing spurious, for every tree (any number of keys, any nesting depth, any set of "
+            "formatters); TranslationsInfos::get_icu_keys_inner does so over every namespace (or the single un-namespaced "
+            "tree).",
+    "note": "Not covered: how VarInfo.range_count / formatters are accumulated across locales and through foreign keys (the "
+            "accumulator side is C08's get_keys / push_var / push_count contracts), get_keys / Options::into_data_keys (the "
+            "ICU key tables, icu_datagen), get_locales / get_locales_langids (iterator adapters), get_icu_keys' "
+            "`HashSet::new()` + flat_map wrapper. Rewrites: I3 (values() -> iter()), I4 (iter_vars() -> variables.iter(), "
+            "the text of iter_vars is pinned), I5 (`in &set` -> `in set.iter()`), K2 (`P => continue` arm of a let-match "
+            "-> guard match with the remaining statements in the other arm, the duplicated arm proved dead). Assumed: vstd's "
+            "BTreeMap / BTreeSet iterator and HashSet::insert specs, lawfulness of the derived Ord of Key / Formatter and of "
+            "the derived Hash/Eq of Options. Termination of the recursion is not proved (exec_allows_no_decreases_clause).",
+    "design_ref": "DESIGN.md section 8.16",
+}
+
 NOT_APPLICABLE = {
     "C01": "text -> tree -> tokens -> HTML: byte-offset &str slicing (no str offset theory in Verus, >240 s for 4 bytes in Kani), &mut tree rewriting, quote! output; no function on the path can carry a checkable contract",
     "C02": "relates the outputs of two code generators after rustc compiled them; token streams have no semantics in either verifier",
@@ -197,7 +217,6 @@ NOT_APPLICABLE = {
     "C13": "as_str/from_str/serde impls exist only as quote! output of create_locales_enum; verifying sample expansions would quantify over samples",
     "C16": "history property of leptos' reactive runtime; repo code is one-line delegation to RwSignal; a contract would restate leptos' semantics as an axiom",
     "C19": "toml/serde + filesystem; contain_duplicates uses get_or_insert_with on BTreeSet<&Key> (Verus rejects, Kani >400 s for 3 keys)",
-    "C20": "find_used_datakey: `continue` inside `for` (Verus rejects); Kani on the verbatim-extracted walk with stand-ins for BTreeMap/BTreeSet/HashSet does not finish on a depth-3 tree (> 5 min per harness: the recursion over heap-allocated enums is unwound to the bound at every level; probes/c20_kani); crate depends on icu_datagen",
 }
 
 
